@@ -22,9 +22,13 @@ pub fn create_semantic_hash_map<const P: u128>(num_vars: usize) -> WmcParams<Fin
     // not sure how to extend to SDDs (and this does not happen in practice)
     assert!(((vars.len() * 1000) as u128) < P);
 
-    // seed the RNG deterministically for reproducible weights across
-    // different calls to `create_semantic_hash_map`
-    let mut rng = ChaCha8Rng::seed_from_u64(101249);
+    // the weights have to be the same for every call of `create_semantic_hash_map` in one
+    // process (hashes of different builders are compared), but they must not be predictable:
+    // for a fixed public seed one can compute two different functions with the same hash
+    // (generalised birthday search over signed sums of model weights) and hand them to a
+    // builder that identifies nodes by hash.  Draw the seed once per process from the OS.
+    static SEED: std::sync::OnceLock<u64> = std::sync::OnceLock::new();
+    let mut rng = ChaCha8Rng::seed_from_u64(*SEED.get_or_init(rand::random::<u64>));
     // let mut rng = ChaCha8Rng::from_entropy();
 
     let value_range: Vec<(FiniteField<P>, FiniteField<P>)> = (0..vars.len() as u128)
